@@ -132,7 +132,7 @@ def run_model(lines: list[str], workdir: Path) -> list[str]:
 # implementation side
 
 def run_impl(prop: str, build_dir: Path, cases: list[dict], workdir: Path, timeout=3000,
-             setup_lines=None, teardown_lines=None, env_extra=None):
+             setup_lines=None, teardown_lines=None, env_extra=None, stack_bytes=None):
     """returns (results by id, crashed_case_id or None, stderr tail)"""
     cases_path = workdir / 'cases.jsonl'
     results_path = workdir / 'results.jsonl'
@@ -150,10 +150,17 @@ def run_impl(prop: str, build_dir: Path, cases: list[dict], workdir: Path, timeo
     env['PYTHONHASHSEED'] = '0'
     env.pop('PYTHONWARNINGS', None)
     env.update(env_extra or {})
+
+    def _limits():
+        if stack_bytes:
+            import resource
+            soft, hard = resource.getrlimit(resource.RLIMIT_STACK)
+            want = stack_bytes if hard == resource.RLIM_INFINITY else min(stack_bytes, hard)
+            resource.setrlimit(resource.RLIMIT_STACK, (want, hard))
     try:
         p = subprocess.run([PYTHON, str(HERE / 'impl_runner.py'), prop, str(cases_path),
                             str(results_path)], env=env, capture_output=True, text=True,
-                           timeout=timeout, cwd=str(workdir))
+                           timeout=timeout, cwd=str(workdir), preexec_fn=_limits)
     except subprocess.TimeoutExpired as e:
         raise Infra(f'implementation runner timed out after {timeout}s') from e
     results: dict[int, dict] = {}
@@ -325,6 +332,8 @@ def run_check(prop: str, tier: str, seed: int, replay: str | None, t0: float) ->
         res2, crashed2, rc2, err2 = run_impl(
             prop, asan_dir, sub, wd2, setup_lines=setup, teardown_lines=teardown,
             timeout=getattr(mod, 'IMPL_TIMEOUT', 3000) * 3,
+            # instrumented frames are several times larger: give the guarded recursions (<= 1001 levels) room
+            stack_bytes=1 << 30,
             env_extra={'LD_PRELOAD': lib, 'ASAN_OPTIONS': 'detect_leaks=0:abort_on_error=1:allocator_may_return_null=1',
                        'UBSAN_OPTIONS': 'halt_on_error=1:print_stacktrace=1'})
         n_asan_fail = 0
